@@ -339,6 +339,47 @@ impl World {
         MintInfo { key: k, program: TOKEN22, transfer_fee }
     }
 
+    /// the transfer fee the token program applies to `mint` at the bank's current epoch (read from the mint account with the
+    /// token program's own extension parser and `get_epoch_fee`)
+    pub fn fee_in_force(&self, mint: &Pubkey) -> Option<(u16, u64)> {
+        use spl_token_2022::extension::{transfer_fee::TransferFeeConfig, BaseStateWithExtensions, StateWithExtensions};
+        let a = self.bank.accounts.get(mint)?;
+        if a.owner != TOKEN22 {
+            return None;
+        }
+        let st = StateWithExtensions::<spl_token_2022::state::Mint>::unpack(&a.data).ok()?;
+        let cfg = st.get_extension::<TransferFeeConfig>().ok()?;
+        let f = cfg.get_epoch_fee(self.bank.clock.epoch);
+        Some((u16::from(f.transfer_fee_basis_points), u64::from(f.maximum_fee)))
+    }
+    /// bring every `MintInfo::transfer_fee` copy up to date with the schedule in force
+    pub fn refresh_transfer_fees(&mut self) {
+        for i in 0..self.pools.len() {
+            for a in [true, false] {
+                let m = if a { self.pools[i].mint_a.clone() } else { self.pools[i].mint_b.clone() };
+                if m.transfer_fee.is_some() {
+                    let f = self.fee_in_force(&m.key);
+                    if a {
+                        self.pools[i].mint_a.transfer_fee = f;
+                    } else {
+                        self.pools[i].mint_b.transfer_fee = f;
+                    }
+                }
+            }
+        }
+    }
+    /// real Token-2022 `SetTransferFee` by the fee-config authority: takes effect two epochs later
+    pub fn set_transfer_fee(&mut self, mint: &Pubkey, bp: u16, max: u64) -> bool {
+        let admin = self.admin;
+        let Ok(ix) = spl_token_2022::extension::transfer_fee::instruction::set_transfer_fee(&TOKEN22, mint, &admin, &[], bp, max) else { return false };
+        self.bank.process_native(&ix).is_ok()
+    }
+    pub fn advance_epoch(&mut self, n: u64) {
+        self.bank.clock.epoch += n;
+        self.bank.clock.slot += 432_000 * n;
+        self.refresh_transfer_fees();
+    }
+
     pub fn create_token_account(&mut self, mint: &MintInfo, owner: &Pubkey, amount: u64) -> Pubkey {
         let t = self.fresh_key();
         if mint.program == TOKEN {
